@@ -4,6 +4,8 @@
 (* heights, five hashes; BEACON: consecutive timestamp ids from 1, one hash  *)
 (* and the submit time.                                                      *)
 (*                                                                           *)
+(* st.aux.ever[k][i] = every record ever accepted for the i-th registration, *)
+(* in acceptance order (observation variable kept by the MC / trace spec).   *)
 (* st[k] = [p: [feeReg, feeRec, feePur, denom, def, max], next, start,       *)
 (*          ch: Seq([id, owner, moniker, name, (genesis, type,) reg, last,   *)
 (*                   num, low, limit, stor: [limit, used, max, maxp],        *)
@@ -50,7 +52,8 @@ Register(st, k, m) ==
                     limit |-> st[k].p.def, hasLimit |-> TRUE, recs |-> <<>>, iter |-> <<>>,
                     stor |-> [limit |-> 0, used |-> 0, max |-> 0, maxp |-> 0]]
            c == IF k = "wrk" THEN base @@ [genesis |-> m.genesis, type |-> m.type] ELSE base
-       IN OkOut([st EXCEPT ![k].ch = Append(@, WithStor(st[k].p, c)), ![k].next = @ + 1], [id |-> id])
+       IN OkOut([st EXCEPT ![k].ch = Append(@, WithStor(st[k].p, c)), ![k].next = @ + 1,
+                          !.aux.ever[k] = Append(@, <<>>)], [id |-> id])
 
 \* remove the record with key h
 DropRec(recs, h) == SelectSeq(recs, LAMBDA r : r.h # h)
@@ -71,7 +74,8 @@ RecordWrk(st, m) ==
            c2 == [c EXCEPT !.last = m.h, !.num = IF over THEN c.num ELSE c.num + 1,
                            !.low = IF over THEN (IF iter2 = <<>> THEN 0 ELSE Head(iter2)) ELSE low1,
                            !.recs = recs2, !.iter = iter2]
-       IN OkOut([st EXCEPT ![k].ch[ChIdx(st, k, m.id)] = WithStor(st[k].p, c2)], [id |-> m.id, h |-> m.h])
+       IN OkOut([st EXCEPT ![k].ch[ChIdx(st, k, m.id)] = WithStor(st[k].p, c2),
+                          !.aux.ever[k][ChIdx(st, k, m.id)] = Append(@, r)], [id |-> m.id, h |-> m.h])
 
 RecordBcn(st, m) ==
   LET k == "bcn" IN
@@ -88,7 +92,8 @@ RecordBcn(st, m) ==
                            !.low = IF over THEN low1 + 1 ELSE low1,
                            !.recs = IF over THEN DropRec(recs1, low1) ELSE recs1,
                            !.iter = IF over THEN SeqRemove(iter1, low1) ELSE iter1]
-       IN OkOut([st EXCEPT ![k].ch[ChIdx(st, k, m.id)] = WithStor(st[k].p, c2)], [id |-> m.id, h |-> t])
+       IN OkOut([st EXCEPT ![k].ch[ChIdx(st, k, m.id)] = WithStor(st[k].p, c2),
+                          !.aux.ever[k][ChIdx(st, k, m.id)] = Append(@, r)], [id |-> m.id, h |-> t])
 
 Record(st, k, m) == IF k = "wrk" THEN RecordWrk(st, m) ELSE RecordBcn(st, m)
 
@@ -129,6 +134,15 @@ CountersMatch(c) ==
   /\ \A i \in DOMAIN c.iter : \A j \in DOMAIN c.iter : i < j => c.iter[i] < c.iter[j]
   /\ (c.iter # <<>> => c.last >= Last(c.iter))
 WithinLimit(c) == c.num <= c.limit
+\* e = everything ever accepted for c (acceptance order = ascending key order)
+LastN(e, n) == SubSeq(e, Len(e) - Min(Len(e), n) + 1, Len(e))
+\* what is in state is a suffix of the acceptance history (pruned records never come back, so after the
+\* limit was raised the suffix may be shorter than the limit; PruneOnlyWhenFull covers the rest)
+InStateIsNewest(c, e) == c.recs = LastN(e, Len(c.recs)) /\ Len(c.recs) <= c.limit
+EverKeysIncrease(k, e) == \A i \in DOMAIN e : IF k = "bcn" THEN e[i].h = i ELSE (i > 1 => e[i].h > e[i - 1].h)
+HistoryOk(st, k) ==
+  /\ Len(st.aux.ever[k]) = Len(st[k].ch)
+  /\ \A i \in DOMAIN st[k].ch : InStateIsNewest(st[k].ch[i], st.aux.ever[k][i]) /\ EverKeysIncrease(k, st.aux.ever[k][i])
 RegistryOk(st, k) ==
   /\ Len(st[k].ch) = st[k].next - st[k].start
   /\ \A i \in DOMAIN st[k].ch :
